@@ -142,6 +142,28 @@ impl Space {
         }
         Space { decls, k }
     }
+    /// A small menu for longer declaration sequences.
+    pub fn small(k: usize) -> Space {
+        let bodies = vec![
+            num(),
+            var("a"),
+            var("x"),
+            obj(vec![prop("k", var("a"))]),
+            obj(vec![prop("k", var("x"))]),
+            E::App(None, "f".into(), vec![var("a")]),
+            E::App(None, "f".into(), vec![var("x"), var("a")]),
+            E::Rec("x".into(), Box::new(obj(vec![prop("k", arr(var("x")))]))),
+            obj(vec![prop("k", var("a")), prop("j", var("x"))]),
+            obj(vec![prop("k", E::Rec("x".into(), Box::new(arr(var("x"))))), prop("j", var("x"))]),
+        ];
+        let mut decls = Vec::new();
+        for (n, ps) in [("a", vec![]), ("b", vec![]), ("f", vec!["x"]), ("f", vec!["x", "a"])] {
+            for b in bodies.iter() {
+                decls.push(fun(n, &ps, b.clone()));
+            }
+        }
+        Space { decls, k }
+    }
     pub fn count(&self) -> u64 {
         let d = self.decls.len() as u64;
         let seqs: u64 = (0..=self.k as u32).map(|i| d.pow(i)).sum();
@@ -359,14 +381,14 @@ impl Engine for C08 {
         ];
         if tier == Tier::Thorough {
             v.push(Phase::new("programs with 2 declarations (full body menu)", json!({"k":2,"full":true})));
-            v.push(Phase::new("programs with 3 declarations (reduced body menu)", json!({"k":3,"full":false})));
+            v.push(Phase::new("programs with 3 declarations (small menu: 4 heads x 10 bodies)", json!({"k":3,"full":false,"small":true})));
         }
         v
     }
     fn run_phase(&self, phase: &Phase, sink: &mut Sink) {
         let k = phase.param["k"].as_u64().unwrap() as usize;
         let full = phase.param["full"].as_bool().unwrap();
-        let space = Space::new(k, full);
+        let space = if phase.param["small"].as_bool().unwrap_or(false) { Space::small(k) } else { Space::new(k, full) };
         let total = space.count();
         let mut idx = sink.single().unwrap_or(sink.shard);
         while idx < total {
